@@ -54,6 +54,12 @@ pub struct Send {
     pub len: usize,
 }
 
+impl Send {
+    pub fn at(tick: u32, dir: usize, ch: u8, len: usize) -> Self {
+        Send { tick, dir, ch, len }
+    }
+}
+
 #[derive(Clone, Debug)]
 pub struct LinkCfg {
     pub name: String,
@@ -77,6 +83,12 @@ pub struct LinkCfg {
     /// start the counters at these values (varint classes); None = 0
     pub seq0: Option<u64>,
     pub msg_id0: Option<u64>,
+    /// lossy baseline: slice packets with this slice index are dropped by default
+    /// (delivering them is then the deviation)
+    pub base_drop_slice_idx: Option<usize>,
+    /// a budget-respecting application: a scripted send waits (keeping script order) until the
+    /// sender's channel offers its whole budget again, i.e. everything earlier was acknowledged
+    pub gated_sends: bool,
 }
 
 #[derive(Clone, Copy, Debug, PartialEq, Eq)]
@@ -118,6 +130,8 @@ impl LinkCfg {
             faults_dir: [true, true],
             seq0: None,
             msg_id0: None,
+            base_drop_slice_idx: None,
+            gated_sends: false,
         }
     }
     pub fn connection_config(&self) -> ConnectionConfig {
@@ -363,6 +377,7 @@ pub struct Link<'c> {
     /// a send that the library refused or that disconnected the sender is noted here
     pub faults_open: bool,
     pub deviations_seen: u32,
+    pub script_done: Vec<bool>,
 }
 
 pub const F_RETRANSMIT: u64 = 1;
@@ -394,6 +409,7 @@ impl<'c> Link<'c> {
             obtained: [vec![Vec::new(); cfg.chans[0].len()], vec![Vec::new(); cfg.chans[1].len()]],
             faults_open: true,
             deviations_seen: 0,
+            script_done: vec![false; cfg.script.len()],
         }
     }
 
@@ -401,7 +417,7 @@ impl<'c> Link<'c> {
         self.cfg.chans[dir].iter().position(|c| c.id == ch).expect("channel")
     }
 
-    fn send(&mut self, dir: usize, ch: u8, len: usize) -> Result<usize, Violation> {
+    pub fn send(&mut self, dir: usize, ch: u8, len: usize) -> Result<usize, Violation> {
         let ci = self.chan_index(dir, ch);
         let k = self.submitted[dir][ci].len();
         let p = payload(dir, ch, k, len);
@@ -417,7 +433,7 @@ impl<'c> Link<'c> {
         Ok(k)
     }
 
-    fn update(&mut self, end: usize, dt: u64) -> Result<(), Violation> {
+    pub fn update(&mut self, end: usize, dt: u64) -> Result<(), Violation> {
         self.now_ms[end] += dt;
         let ends = &mut self.ends;
         guard("update", || {
@@ -429,7 +445,7 @@ impl<'c> Link<'c> {
         })
     }
 
-    fn flush(&mut self, dir: usize) -> Result<usize, Violation> {
+    pub fn flush(&mut self, dir: usize) -> Result<usize, Violation> {
         let ends = &mut self.ends;
         let pkts = guard("get_packets_to_send", || {
             if dir == 0 {
@@ -457,7 +473,7 @@ impl<'c> Link<'c> {
         Ok(first)
     }
 
-    fn deliver(&mut self, dir: usize, pkt: usize) -> Result<(), Violation> {
+    pub fn deliver(&mut self, dir: usize, pkt: usize) -> Result<(), Violation> {
         let rx = 1 - dir;
         let receiver_alive = self.ends.disconnect_reason(rx).is_none();
         let bytes = self.emitted[pkt].bytes.clone();
@@ -479,7 +495,7 @@ impl<'c> Link<'c> {
         Ok(())
     }
 
-    fn drain(&mut self, dir: usize) -> Result<(), Violation> {
+    pub fn drain(&mut self, dir: usize) -> Result<(), Violation> {
         let rx = 1 - dir;
         for ci in 0..self.cfg.chans[dir].len() {
             let ch = self.cfg.chans[dir][ci].id;
@@ -581,7 +597,26 @@ impl<'c> Link<'c> {
             self.tick = tick;
             self.faults_open = tick < cfg.horizon;
             let dt = cfg.dt_ms[(tick as usize) % cfg.dt_ms.len()];
-            for s in cfg.script.iter().filter(|s| s.tick == tick) {
+            let mut blocked_tick: Option<u32> = None;
+            for (si, s) in cfg.script.iter().enumerate() {
+                if self.script_done[si] || s.tick > tick {
+                    continue;
+                }
+                if cfg.gated_sends {
+                    // sends of one scripted tick go out together, later ticks wait for an idle channel
+                    if blocked_tick.is_some() {
+                        break;
+                    }
+                    let group_started = cfg.script.iter().enumerate().any(|(j, o)| o.tick == s.tick && self.script_done[j]);
+                    let idle = cfg.chans[s.dir].iter().all(|c| self.ends.available_memory(s.dir, c.id) == c.max);
+                    if !group_started && !idle {
+                        blocked_tick = Some(s.tick);
+                        break;
+                    }
+                } else if s.tick != tick {
+                    continue;
+                }
+                self.script_done[si] = true;
                 let k = self.send(s.dir, s.ch, s.len)?;
                 ctx.note(|| format!("t{} end{} send ch{} msg#{} len {}", tick, s.dir, s.ch, k, s.len));
                 probe.on_send(self, s.dir, s.ch, k)?;
@@ -602,11 +637,25 @@ impl<'c> Link<'c> {
                 probe.on_flush(self, dir, first)?;
                 // fates
                 for i in first..self.emitted.len() {
-                    let fate = if self.faults_open && cfg.faults_dir[dir] && cfg.fates.len() > 1 {
+                    let base_drop = match (&self.emitted[i].info, cfg.base_drop_slice_idx) {
+                        (PktInfo::ReliableSlice { idx, .. }, Some(b)) | (PktInfo::UnreliableSlice { idx, .. }, Some(b)) => {
+                            *idx == b && self.faults_open
+                        }
+                        _ => false,
+                    };
+                    let mut fate = if self.faults_open && cfg.faults_dir[dir] && cfg.fates.len() > 1 {
                         cfg.fates[ctx.choose(cfg.fates.len())]
                     } else {
                         Fate::Ok
                     };
+                    if base_drop {
+                        // default answer is Drop, the alternative "Drop" slot means deliver
+                        fate = match fate {
+                            Fate::Ok => Fate::Drop,
+                            Fate::Drop => Fate::Ok,
+                            f => f,
+                        };
+                    }
                     if fate != Fate::Ok {
                         ctx.note(|| format!("t{} net: pkt{} fate {:?}", tick, i, fate));
                     }
